@@ -123,6 +123,10 @@ func (e *engine) CompileModule(ctx context.Context, module *wasm.Module, listene
 		defer wazevoapi.PerfMap.Unlock()
 	}
 
+	if e.closed() {
+		return errEngineClosed
+	}
+
 	if _, ok, err := e.getCompiledModule(module, listeners, ensureTermination); ok { // cache hit!
 		return nil
 	} else if err != nil {
@@ -483,6 +487,17 @@ func (e *engine) compileHostModule(ctx context.Context, module *wasm.Module, lis
 	}
 	e.setFinalizer(cm.executables, executablesFinalizer)
 	return cm, nil
+}
+
+// errEngineClosed is returned when a module is compiled after Close, e.g. through a wazero.Runtime that outlives the
+// wazero.CompilationCache owning this engine.
+var errEngineClosed = errors.New("engine is closed")
+
+// closed returns true after Close.
+func (e *engine) closed() bool {
+	e.mux.RLock()
+	defer e.mux.RUnlock()
+	return e.compiledModules == nil
 }
 
 // Close implements wasm.Engine.
